@@ -153,7 +153,7 @@ def run(ctx):
                     if len(ms) != len(set(ms)):
                         report("C13:two-dids-of-one-method", f"subject {sname} event {k}", w)
                     # O2 consecutive versions (schedules where the sweep runs before the next operation on the subject)
-                    if kind in ("plain", "quiet", "now", "mid", "req"):
+                    if kind in ("plain", "quiet", "now", "mid", "req", "tx2"):
                         for d in s["dids"]:
                             if d[2] != list(range(len(d[2]))):
                                 report("C13:versions-not-consecutive", f"subject {sname} event {k}: {d[2]}", w)
@@ -185,6 +185,8 @@ def run(ctx):
             op, o = w["ops"][k], obs[k]
             if op["op"] != "do" or o[0] == "stopped" or o[0] == "hang" or o[0].startswith("panic:"):
                 continue
+            if o[0] == "err:db":
+                continue    # the clean-up transaction failed: like a stop, versions and change records stay until the sweep ('tx2' worlds judge it)
             fb, fa = full(obs[k - 1]), full(o)
             if o[0].startswith("err:"):
                 changed = [s for s in fa if fa[s] != fb.get(s, ([], "err:nosubject"))]
@@ -278,6 +280,29 @@ def run(ctx):
                         stats["req:created-under-given-name"] += 1
                     elif legacy:
                         stats["req:created-under-v1-name"] += 1
+        if kind == "tx2":
+            # a DB error in the clean-up transaction: the caller is told, the early sweep leaves the young records alone, the sweep past the
+            # threshold keeps what every method published and removes (on EVERY DID) what did:nuts did not publish; no record remains
+            b = next((k for k, op in enumerate(w["ops"]) if op.get("fault") in ("tx2err", "failtx2")), None)
+            if b is not None:
+                flavour = w["ops"][b]["fault"]
+                stats["cut:cleanup-db-error:" + flavour] += 1
+                def view(o):
+                    return {s: ([(d[0], d[1], tuple(d[2]), d[3], d[4]) for d in v["dids"]], v["err"]) for s, v in o[3].items()}
+                pre, at, early, late = obs[b - 1], obs[b], obs[b + 1], obs[b + 3]
+                if at[0] != "err:db":
+                    report("C13:cleanup-db-error-not-reported", f"the clean-up transaction of {w['ops'][b]['kind']} failed with a DB error but the caller got {at[0]}", w)
+                if at[1] == 0:
+                    report("C13:cleanup-db-error-lost-change-records", f"after a failed clean-up of {w['ops'][b]['kind']} no change record is left for the sweep", w)
+                if (early[1], view(early)) != (at[1], view(at)):
+                    report("C13:sweep-touched-young-change-records", f"a sweep right after the failed clean-up changed the state: {at[1]} -> {early[1]} change records", w)
+                if late[1] != 0:
+                    report("C13:changelog-remains-after-sweep", f"{late[1]} change records remain after the sweep that follows a failed clean-up ({flavour})", w)
+                abandoned = flavour == "failtx2" and "nuts" in w["methods"]
+                want = view(pre) if abandoned else view(at)
+                if view(late) != want:
+                    sig = "C13:abandoned-change-visible-after-sweep" if abandoned else "C13:published-change-rolled-back-by-sweep"
+                    report(sig, f"{w['ops'][b]['kind']} with a failed clean-up ({flavour}): after the sweep {view(late)}, expected {want}", w)
         if kind == "plain":
             last = obs[-1]
             if last[1] != 0:
@@ -421,6 +446,8 @@ def run(ctx):
                        "Every event is observed through ListDIDs / Resolve / FindServices / version numbers / did_change_log and key_reference counts / the didstore. "
                        "Request worlds ('req'): Create with option LISTS (given names that are free / taken / ill-formed, v1 naming before and after a name, encryption key, unknown option, "
                        "repeats; fixed + random lists; faults on a Create with options), AddVerificationMethod with a key-agreement usage, on nuts+web / web+nuts / nuts / web with 8 PreferredOrder values. "
+                       "Clean-up-failure worlds ('tx2'): a real DB error at the first DELETE of transactionHelper's second transaction, alone and after a failed did:nuts Commit, for each of the 6 operations "
+                       "(+ a no-change operation), early sweep, sweep past the threshold, retry. "
                        "distinct_nontrivial = distinct worlds (event lists without map order)")
     ctx.cov["input_distribution"] = dict(sorted(stats.items()))
     ctx.cov["samples"] = [json.dumps(worlds[1]["ops"][:4])[:400] if len(worlds) > 1 else "", impl[worlds[1]["start"] + 2][:300] if len(worlds) > 1 else ""]
@@ -530,7 +557,7 @@ REQUIRED_DEEP = ["uniform_versions", "versions_consecutive", "versions_consecuti
                  "create_request_refines", "add_key_request_refines", "create_request_reach", "add_key_request_reach",
                  "key_agreement_on_web_changes_no_did", "create_with_encryption_key_on_web_creates_nothing",
                  "create_request_order_independent", "ill_formed_option_refuses", "option_names_are_not_dids",
-                 "list_dids_sorted_permutation", "list_dids_order_unique"]
+                 "list_dids_sorted_permutation", "list_dids_order_unique", "cleanup_failure_reach"]
 
 
 def pref_of(s):
